@@ -1055,7 +1055,7 @@ def nontrivial(c):
 
 def select(ctx, cases):
     """thorough: every tuple TLC printed.  quick: every tuple on which the model says the rule fires, raises or deviates,
-    plus a seeded sample (at most 250 per family) of the tuples on which it declines"""
+    plus a seeded sample of the tuples on which it declines (per family at most 300 with an underivable fact, 150 others)"""
     cases = [c for c in cases if c["lhs"]["dt"] != "ERR"]      # hosts without a defined original meaning are not generated
     fams = os.environ.get("VERIF_C05_FAMILIES")
     if fams:
@@ -1077,11 +1077,15 @@ def select(ctx, cases):
         cs = byfam[f]
         keep = [c for c in cs if c["why"] or nontrivial(c)]
         rest = [c for c in cs if not (c["why"] or nontrivial(c))]
-        if len(rest) > 250:
-            rng.shuffle(rest)
-            rest = rest[:250]
-            exhaustive = False
-        out += keep + rest
+        # declining tuples: those where a needed fact is not derivable from the model (the near-misses the property
+        # talks about) are sampled separately from the plain algebraic near-misses
+        for part, cap in (([c for c in rest if c["unknown"]], 300), ([c for c in rest if not c["unknown"]], 150)):
+            if len(part) > cap:
+                rng.shuffle(part)
+                part = part[:cap]
+                exhaustive = False
+            out += part
+        out += keep
     out.sort(key=lambda c: json.dumps([c["fam"], c["p"]], sort_keys=True))
     return out, exhaustive
 
@@ -1134,7 +1138,7 @@ def run(ctx: core.Ctx):
         "onnxruntime (optimizations disabled) implements the operators involved as the ONNX operator text says; it is the common judge of before and after",
         "'for all inputs' is sampled by one integer-valued test tensor per host that contains every value of -3..3 (elementwise rules), plus a second feed that changes every operand the model does not fix (graph inputs, overridable initializers)",
         "hosts ORT refuses although the operator text gives them a meaning (auto_pad SAME_* with dilations) are judged against onnx.reference, and only when it returns exactly the tensor Rules.tla computes",
-        "quick tier replays every tuple on which the model fires / raises / deviates and a seeded sample of at most 250 declining tuples per family; thorough replays every tuple",
+        "quick tier replays every tuple on which the model fires / raises / deviates and a seeded sample of the declining tuples (per family at most 300 with an underivable fact and 150 others); thorough replays every tuple",
         "signed zeros, NaN/inf inputs and float rounding (e.g. double rounding in cast_cast) are outside the integer-valued domain of the spec",
     ]
 
